@@ -172,7 +172,8 @@ def run_frames(level, frames, settle_between=True, probe=True, judge_first_reply
         mine = [(dst, n, a) for (dst, n, a, raw) in sent
                 if a is not None and a["invoke"] == cls["invoke"] and a["type"] in (2, 3, 5, 6, 7)
                 and not (a["type"] == 7 and not a["srv"]) and to_tester(dst, level)]
-        same = sum(1 for g in frames if devref.classify(g, level).get("invoke") == cls["invoke"] and devref.classify(g, level)["judged"])
+        same = sum(1 for g in frames if (devref.classify(g, level)["judged"] and devref.classify(g, level).get("invoke") == cls["invoke"])
+                   or (not devref.classify(g, level)["judged"] and devref.possible_invoke(g, level) == cls["invoke"]))
         if len(mine) == 0:
             problems.append(("no-reply-to-well-framed-request", {"invoke": cls["invoke"], "service": cls.get("service")}))
         elif len(mine) > same:
@@ -586,16 +587,28 @@ def run(tier, seed, deadline):
     acc.info["mutated frames"] = len(muts)
     reps = acc.info.pop("representatives", [])
     pool = {}
+    by_prio = {}
     for level, prio, f in sorted(reps, key=lambda r: (r[0], r[1], r[2])):
-        pool.setdefault(level, [])
-        if f not in pool[level]:
-            pool[level].append(f)
+        lst = by_prio.setdefault((level, prio), [])
+        if f not in lst:
+            lst.append(f)
+    for level in ("lan", "ip"):
+        # round robin over the three kinds (frames that leave a transaction waiting, frames whose handling raises, the
+        # rest) so that a cut of the pool keeps all three kinds whatever their numbers
+        kinds = [list(by_prio.get((level, prio), [])) for prio in (0, 1, 2)]
+        out = []
+        while any(kinds):
+            for k in kinds:
+                if k:
+                    out.append(k.pop(0))
+        pool[level] = out
     acc.info["garbage pool"] = {k: len(v) for k, v in pool.items()}
+    acc.info["garbage pool by kind (waiting / raising / rest)"] = {lv: [len(by_prio.get((lv, p), [])) for p in (0, 1, 2)] for lv in ("lan", "ip")}
     # histories
     items = []
     depth = 2 if tier == "quick" else 3
     for level in ("lan", "ip"):
-        garbage = pool.get(level, [])[:40 if tier == "quick" else 60]      # lingering first, then exception-raising, then the rest
+        garbage = pool.get(level, [])[:40 if tier == "quick" else 60]      # the three kinds in turn
         valid = wrap(level, VALID)
         for n in range(1, depth + 1):
             if n == 3:
